@@ -36,13 +36,16 @@ def tla_set(xs):
     return "{" + ", ".join(('"%s"' % x) if isinstance(x, str) else str(x) for x in xs) + "}"
 
 
-def consts(nq, prune=False, families=("Q0",), canonical=True, only_terminating=False, minset=(-1, 0, 1, 5)):
+SITS = ("alloc", "vreclaim", "vpreempt", "vconsol", "reclaimer", "preemptor")
+
+
+def consts(nq, prune=False, families=("Q0",), canonical=True, only_terminating=False, minset=(-1, 0, 1, 5), sits=SITS):
     return dict(NQ=str(nq), PruneCycles="TRUE" if prune else "FALSE", Families=tla_set(families),
                 Canonical="TRUE" if canonical else "FALSE", OnlyTerminating="TRUE" if only_terminating else "FALSE",
-                MinSet=tla_set(minset), FracSet=tla_set(FRAC), MemSet=tla_set(MEM), DevSet=tla_set(DEV), NodeSet=tla_set(NODE))
+                MinSet=tla_set(minset), SitSet=tla_set(sits), FracSet=tla_set(FRAC), MemSet=tla_set(MEM), DevSet=tla_set(DEV), NodeSet=tla_set(NODE))
 
 
-DUMMY = dict(NQ="1", PruneCycles="FALSE", Families="{}", Canonical="FALSE", OnlyTerminating="FALSE", MinSet="{}", FracSet="{}",
+DUMMY = dict(NQ="1", PruneCycles="FALSE", Families="{}", Canonical="FALSE", OnlyTerminating="FALSE", MinSet="{}", SitSet="{}", FracSet="{}",
              MemSet="{}", DevSet="{}", NodeSet="{}")
 
 MODEL_INVS = ["TypeOK", "I_LiveIsStatic", "I_ChildrenIsStatic", "I_ControlUntouched", "I_StepsBoundedIffNoHang"]
@@ -56,16 +59,34 @@ def model_check(ctx, name, nq, canonical, **kw):
     d = vlib.prepare_spec_dir(ctx, "mc-" + name)
     mod, cfg = vlib.write_model(d, MODULE, "Tot_mc", consts(nq, canonical=canonical, **kw), spec="Spec",
                                 invariants=MODEL_INVS, properties=["C10_Terminates"])
-    r = vlib.tlc(ctx, d, mod, cfg, workers=min(vlib.NCPU, 8), timeout=1500, heap="6g")
+    r = vlib.tlc(ctx, d, mod, cfg, workers=4, timeout=1500, heap="6g")
     return r
 
 
 def design_checks(ctx, nq, canonical):
+    # the three TLC runs are independent: run them concurrently (4 workers each), judge them in order below
+    import concurrent.futures
+
+    def guarded(name, **kw):
+        try:
+            return model_check(ctx, name, nq, canonical, **kw)
+        except Exception as e:      # re-raised in the main thread
+            return e
+    with concurrent.futures.ThreadPoolExecutor(max_workers=3) as ex:
+        futs = {"asis": ex.submit(guarded, "asis"), "asis-term": ex.submit(guarded, "asis-term", only_terminating=True),
+                "repaired": ex.submit(guarded, "repaired", prune=True)}
+        results = {k: f.result() for k, f in futs.items()}
+
+    def get(name):
+        r = results[name]
+        if isinstance(r, Exception):
+            raise r
+        return r
     # (a) the code as written: the lasso is expected
     # (vlib.parse_tlc does not know this TLC version's "Temporal property X was violated" message and
     #  raises Infra for it; the helper below recognises it.)
     try:
-        r = model_check(ctx, "asis", nq, canonical)
+        r = get("asis")
     except vlib.Infra as e:
         msg = str(e)
         if "Temporal property C10_Terminates was violated" not in msg:
@@ -93,13 +114,13 @@ def design_checks(ctx, nq, canonical):
         ctx.add_tlc(r)
         ctx.stage("model-asis", result="C10_Terminates holds on the transcription as written", distinct=r.distinct)
     # (b) as written, restricted to the scenarios for which the static predictor says "terminates"
-    r = model_check(ctx, "asis-term", nq, canonical, only_terminating=True)
+    r = get("asis-term")
     if not r.ok:
         raise vlib.Infra("Totality: the hang predictor disagrees with the loop model (%s %s)\n%s" % (r.kind, r.violated, vlib.tail_errors(r.out)))
     ctx.add_tlc(r)
     ctx.stage("model-asis-terminating-subset", distinct=r.distinct, generated=r.generated, depth=r.depth, wall=round(r.wall, 1))
     # (c) the repaired design terminates on every parent function
-    r = model_check(ctx, "repaired", nq, canonical, prune=True)
+    r = get("repaired")
     if not r.ok:
         raise vlib.Infra("Totality: the repaired design does not satisfy the model properties (%s %s)\n%s" % (r.kind, r.violated, vlib.tail_errors(r.out)))
     ctx.add_tlc(r)
@@ -107,9 +128,9 @@ def design_checks(ctx, nq, canonical):
     return predicted
 
 
-def export(ctx, nq, canonical, families, minset):
+def export(ctx, nq, canonical, families, minset, sits=SITS):
     d = vlib.prepare_spec_dir(ctx, "gen")
-    mod, cfg = vlib.write_model(d, TRACE, "Tot_gen", consts(nq, families=families, canonical=canonical, minset=minset),
+    mod, cfg = vlib.write_model(d, TRACE, "Tot_gen", consts(nq, families=families, canonical=canonical, minset=minset, sits=sits),
                                 init="GenInit", next_="GenNext", constraints=["Emit"])
     r = vlib.tlc(ctx, d, mod, cfg, workers=1, timeout=1500, heap="6g")
     out = []
@@ -141,6 +162,9 @@ def mix(scens, rnd, n):
         m["node"], m["pin"] = nn["node"], nn["pin"]
         m["run"] = rnd.randrange(2)
         m["press"] = q["press"]
+        m["sit"] = q["sit"] if q["sit"] != "alloc" else rnd.choice(SITS)
+        if m["sit"] != "alloc":
+            m["run"], m["press"] = 0, 0
         if m["press"]:
             m["node"], m["pin"], m["gpu"] = "notready", 1, max(1, m["gpu"])
         if rnd.random() < 0.5:   # the node family fixes the request kind: keep it half of the time
@@ -152,7 +176,8 @@ def mix(scens, rnd, n):
                                   "node=%s pin=%d run=%d" % (m["node"], m["pin"], m["run"])])
         if not q["hang"]:
             # the queue part names the signature (the full graft is in the replay file)
-            m["sig"] = "mixed: " + q["sig"].replace(" running-pod", "")
+            m["sig"] = "mixed: " + q["sig"].replace(" running-pod", "").split(" sit=")[0] \
+                + ((" sit=" + m["sit"]) if m["sit"] != "alloc" else "")
         out.append(m)
     return out
 
@@ -249,6 +274,8 @@ def run(ctx):
     binary = vlib.go_build("totality")
     rnd = random.Random(ctx.seed)
     ctx.cov["rule"] = ("scenario = one API state: control workload (queues cdept<-cteam, node cnode, pod cpod) + one malformed aspect "
+                       "crossed with the SITUATION of the malformed job (allocate-only / running reclaim victim / running preempt victim / "
+                       "running on a fragmented cluster for consolidation / pending reclaimer / pending preemptor; all default actions run) "
                        "(family Q: every parent function over 4 queues with values in queues+{root, missing} x queue of the job "
                        "[quick: one representative per renaming orbit]; S: sub-group specs / minMember / sub-group labels; "
                        "P: GPU annotation classes; N: node shapes x request kind x pinned) + seeded grafts of the families onto "
@@ -266,7 +293,13 @@ def run(ctx):
     else:
         nq, canonical, minset, nmix = 4, False, (-1, 0, 1, 2, 5), 6000
         predicted = design_checks(ctx, 4, False)      # every parent function over 4 queues
-    scens = export(ctx, nq, canonical, ("Q", "S", "P", "N"), minset)
+    if ctx.quick:
+        scens = export(ctx, nq, canonical, ("Q", "S", "P", "N"), minset)
+    else:
+        # every parent function in the allocate-only situation; one representative per renaming orbit in every situation
+        scens = export(ctx, nq, False, ("Q", "S", "P", "N"), minset, sits=("alloc",))
+        seen = {json.dumps(s, sort_keys=True) for s in scens}
+        scens += [s for s in export(ctx, nq, True, ("Q", "S", "P", "N"), minset) if json.dumps(s, sort_keys=True) not in seen]
     if not ctx.quick:
         # every scenario additionally with the other representatives of its annotation classes
         scens = scens + [dict(s, var=v) for s in scens if s["fam"] == "P" for v in (1, 2)]
